@@ -337,7 +337,7 @@ def judge(cfg: dict, result: dict) -> list[dict]:
 # seed-level entry points
 # ------------------------------------------------------------------------------------------------
 def execute(cfg: dict, schedule: typing.Optional[list] = None) -> tuple[dict, list[dict]]:
-    result = runmod.fork_run(simulate, cfg, schedule, real_timeout=240)
+    result = runmod.fork_run(simulate, cfg, schedule, real_timeout=240, seed=cfg['seed'])
     return result, judge(cfg, result)
 
 
